@@ -456,8 +456,43 @@ def rule_T8(ctx: Ctx) -> None:
               "a step group is [PATH_PRE?] t1 [INTRA] t2 [INTRA] ... [PATH_POST?]: under intra every step-tokenizer output is followed by one PATH_INTRA (even slots outputs, odd slots delimiters)",
               "delimiters are misplaced/miscounted inside a step: the path region cannot be segmented back into steps")
     ld = ss.methods["_leading_tokens"]
-    ok = "StepTokenizers.Coord() in self.step_tokenizers" in X.U(ld.node) and "coord_tokenizer.to_tokens(maze.solution[0, ...])" in X.U(ld.node)
-    ctx.judge(ld, ok, {}, "when steps are given by coordinates, the first solution cell is emitted once before the steps (fence-post)")
+
+    def ld_call(ev, node, env):
+        d = dotted_of(node.func) or ""
+        if d.endswith("StepTokenizers.Coord") and not node.args:
+            return Obj("ST:Coord")
+        if isinstance(node.func, ast.Attribute) and node.func.attr == "to_tokens" and X.U(node.func.value) == pl[2]:
+            return [f"coord<{ev.ev(node.args[0], env)}>.a", f"coord<{ev.ev(node.args[0], env)}>.b"]
+        if d == "flatten":
+            return _flat(ev.ev(node.args[0], env))
+        if d == "empty_sequence_if_attr_false" and len(node.args) == 3:
+            seq, obj, attr = (ev.ev(a, env) for a in node.args)
+            return seq if obj.attrs[attr] else ()
+        return NotImplemented
+
+    def ld_getitem(o, k):
+        if o.cls == "solution" and (k == 0 or (isinstance(k, tuple) and k and k[0] == 0)):
+            return "cell0"
+        raise Unknown("subscript")
+    pl = ld.params()
+    bad, unk = [], []
+    for has_coord in (False, True):
+        for pre in (False, True):
+            for intra in (False, True):
+                sts = (Obj("ST:Cardinal"), Obj("ST:Coord")) if has_coord else (Obj("ST:Cardinal"),)
+                env = {pl[0]: Obj("StepSequence", {"step_tokenizers": sts, "pre": pre, "intra": intra, "post": False}), pl[1]: Obj("maze", {"solution": Obj("solution")}),
+                       pl[2]: Obj("coord_tokenizer"), "VOCAB": Obj("VOCAB", {k: f"<{k}>" for k in ("PATH_PRE", "PATH_INTRA", "PATH_POST")})}
+                want = ((["<PATH_PRE>"] if pre else []) + ["coord<cell0>.a", "coord<cell0>.b"] + (["<PATH_INTRA>"] if intra else [])) if has_coord else []
+                try:
+                    got = Evaluator({"__call__": ld_call, "__getitem__": ld_getitem}).run_body(X.body_wo_doc(ld.node), env)
+                    got = list(got) if isinstance(got, (list, tuple)) else got
+                except Unknown as e:
+                    unk.append(str(e)[:120])
+                    continue
+                if got != want:
+                    bad.append({"coord_steps": has_coord, "pre": pre, "intra": intra, "found": got, "expected": want})
+    ctx.judge(ld, False if bad else None if unk else True, {"configurations": 8, "deviations": bad[:3], "undecided": unk[:2]},
+              "when steps are given by coordinates, the first solution cell is emitted once before the steps, delimited like a step (fence-post); otherwise nothing precedes the steps")
 
 
 def rule_T9(ctx: Ctx) -> None:
